@@ -2,6 +2,7 @@ package jph
 
 import (
 	"fmt"
+	"reflect"
 	"sort"
 	"strings"
 	"unicode/utf16"
@@ -22,6 +23,19 @@ import (
 // specification gives on the canonical document (ascending byte-wise keys, index order,
 // written order, pre-order) and, for paths without filters and functions, the sequence a
 // small reference walk in Go produces with sort.Strings.
+//
+// Two further families (the order must be a function of the document as a VALUE, not of the
+// Go objects it is made of, nor of what a parsed function has seen before):
+//   - shared containers (22% of the cases): the same map / slice object is referenced from
+//     two or more places of the document (a hand-assembled DAG, still a tree as a value);
+//     every rebuilt copy has separate objects, so evaluation 0 (on the sharing document) is
+//     compared with evaluations on unshared equal documents and with the specification;
+//   - keys renamed in place (35% of the cases): after the evaluations a copy of the
+//     document is evaluated with the parsed function, then 1..2 keys of some of its maps are
+//     renamed IN PLACE (delete k, insert k' with the same value: same map object, same
+//     size), and the same parsed function, a fresh Retrieve and the parsed function on a
+//     freshly built equal document must all return the sequence the specification (and the
+//     reference walk) gives for the NEW key set.
 
 type c07 struct{}
 
@@ -38,10 +52,11 @@ var c07Keys = []string{"", "0", "1", "10", "2", "9", "A", "Aa", "B", "Z", "_", "
 	"\u00e9", "\u00c9", "e\u0301", "ab\u00e9", "\u3042", "\u30a2", "\uff61", "\U0001D11E", "\U0001F600", "a.b", "a'b", `a"b`, "-x", "$", "@", "*", "aaa", "B0", "zz"}
 
 type c07Gen struct {
-	r    *Rng
-	next int
-	o    GenOpts
-	root interface{}
+	r        *Rng
+	next     int
+	o        GenOpts
+	root     interface{}
+	descBias bool // documents with shared containers: more `..`
 }
 
 func (g *c07Gen) leaf() interface{} {
@@ -301,6 +316,9 @@ func (g *c07Gen) path() *Path {
 		if i == 0 {
 			ws[3], ws[4], ws[5] = 0, 0, 0 // the first step is a wildcard, a filter or `..`
 		}
+		if g.descBias {
+			ws[2] += 45
+		}
 		if !ok {
 			break
 		}
@@ -496,6 +514,236 @@ func c07KeyClasses(ks []string) []string {
 	return out
 }
 
+// ---------- shared containers, keys renamed in place ----------
+
+// c07Ident: the identity of a container object (what a pointer-keyed cache or visited set
+// would see); empty slices have none.
+func c07Ident(v interface{}) ([2]uintptr, bool) {
+	switch t := v.(type) {
+	case map[string]interface{}:
+		return [2]uintptr{reflect.ValueOf(t).Pointer(), ^uintptr(0)}, true
+	case []interface{}:
+		if len(t) == 0 {
+			return [2]uintptr{}, false
+		}
+		return [2]uintptr{reflect.ValueOf(t).Pointer(), uintptr(len(t))}, true
+	}
+	return [2]uintptr{}, false
+}
+
+type c07Node struct {
+	v   interface{}
+	loc string
+}
+
+func c07Loc(loc string, seg interface{}) string {
+	switch t := seg.(type) {
+	case string:
+		return loc + "[" + fmt.Sprintf("%q", t) + "]"
+	case int:
+		return loc + fmt.Sprintf("[%d]", t)
+	}
+	return loc
+}
+
+// c07Containers lists the containers of the document as a tree (a shared object is listed
+// once per place), in a deterministic order.
+func c07Containers(v interface{}, loc string, out *[]c07Node) {
+	switch t := v.(type) {
+	case map[string]interface{}:
+		*out = append(*out, c07Node{v, loc})
+		for _, k := range sortedKeys(t) {
+			c07Containers(t[k], c07Loc(loc, k), out)
+		}
+	case []interface{}:
+		*out = append(*out, c07Node{v, loc})
+		for i, x := range t {
+			c07Containers(x, c07Loc(loc, i), out)
+		}
+	}
+}
+
+// c07Reaches: target is from itself or one of the containers below it (by identity).
+func c07Reaches(from, target interface{}) bool {
+	ti, ok := c07Ident(target)
+	if !ok {
+		return false
+	}
+	var walk func(v interface{}) bool
+	walk = func(v interface{}) bool {
+		if id, ok := c07Ident(v); ok && id == ti {
+			return true
+		}
+		for _, m := range members(v) {
+			if c04IsContainer(m) && walk(m) {
+				return true
+			}
+		}
+		return false
+	}
+	return walk(from)
+}
+
+// c07Share makes one non-empty container object of the document referenced from a second
+// place (an existing slot of another container is overwritten, or a new key is added to
+// another object). No cycle arises: the new owner is not reachable from the shared object.
+// Returns a description, or "" when the document offers no such pair.
+func c07Share(doc interface{}, r *Rng) string {
+	for try := 0; try < 12; try++ {
+		var nodes []c07Node
+		c07Containers(doc, "$", &nodes)
+		if len(nodes) < 2 {
+			return ""
+		}
+		x := nodes[1+r.Intn(len(nodes)-1)]
+		if len(members(x.v)) == 0 {
+			continue
+		}
+		o := nodes[r.Intn(len(nodes))]
+		if c07Reaches(x.v, o.v) {
+			continue // the owner is the object itself or inside it
+		}
+		switch t := o.v.(type) {
+		case map[string]interface{}:
+			ks := sortedKeys(t)
+			if len(ks) == 0 || r.Chance(50) {
+				k := r.Pick(c07Keys)
+				if _, in := t[k]; in {
+					continue
+				}
+				t[k] = x.v
+				return fmt.Sprintf("the object at %s is also the new member %s", x.loc, c07Loc(o.loc, k))
+			}
+			k := ks[r.Intn(len(ks))]
+			if c04IsContainer(t[k]) && c07Reaches(t[k], x.v) {
+				continue // would only move the object
+			}
+			t[k] = x.v
+			return fmt.Sprintf("the object at %s is also the member %s", x.loc, c07Loc(o.loc, k))
+		case []interface{}:
+			if len(t) == 0 {
+				continue
+			}
+			i := r.Intn(len(t))
+			if c04IsContainer(t[i]) && c07Reaches(t[i], x.v) {
+				continue
+			}
+			t[i] = x.v
+			return fmt.Sprintf("the object at %s is also the element %s", x.loc, c07Loc(o.loc, i))
+		}
+	}
+	return ""
+}
+
+// c07Jnum: ToJnum that keeps shared containers shared.
+func c07Jnum(v interface{}, memo map[[2]uintptr]interface{}) interface{} {
+	id, has := c07Ident(v)
+	if has {
+		if w, ok := memo[id]; ok {
+			return w
+		}
+	}
+	var out interface{}
+	switch t := v.(type) {
+	case float64:
+		return ToJnum(t)
+	case []interface{}:
+		a := make([]interface{}, len(t))
+		for i, x := range t {
+			a[i] = c07Jnum(x, memo)
+		}
+		out = a
+	case map[string]interface{}:
+		m := make(map[string]interface{}, len(t))
+		for _, k := range sortedKeys(t) {
+			m[k] = c07Jnum(t[k], memo)
+		}
+		out = m
+	default:
+		return v
+	}
+	if has {
+		memo[id] = out
+	}
+	return out
+}
+
+// c07SharedPlaces: how many places of the tree hold an object that occurs more than once.
+func c07SharedPlaces(doc interface{}) int {
+	var nodes []c07Node
+	c07Containers(doc, "$", &nodes)
+	cnt := map[[2]uintptr]int{}
+	for _, n := range nodes {
+		if id, ok := c07Ident(n.v); ok {
+			cnt[id]++
+		}
+	}
+	total := 0
+	for _, n := range nodes {
+		if id, ok := c07Ident(n.v); ok && cnt[id] > 1 {
+			total++
+		}
+	}
+	return total
+}
+
+// c07RenameInPlace renames 1..2 keys of some (at least one) of the non-empty maps of doc in
+// place: delete k, insert a key the map does not have with the same value. The map objects
+// and their sizes stay what they were. doc must not share containers.
+func c07RenameInPlace(doc interface{}, r *Rng) []string {
+	var nodes []c07Node
+	c07Containers(doc, "$", &nodes)
+	var maps []c07Node
+	for _, n := range nodes {
+		if m, ok := n.v.(map[string]interface{}); ok && len(m) > 0 {
+			maps = append(maps, n)
+		}
+	}
+	if len(maps) == 0 {
+		return nil
+	}
+	chosen := make([]bool, len(maps))
+	any := false
+	for i := range maps {
+		if r.Chance(60) {
+			chosen[i], any = true, true
+		}
+	}
+	if !any {
+		chosen[r.Intn(len(maps))] = true
+	}
+	var log []string
+	for i, n := range maps {
+		if !chosen[i] {
+			continue
+		}
+		m := n.v.(map[string]interface{})
+		size := len(m)
+		for c := r.Range(1, 2); c > 0; c-- {
+			ks := sortedKeys(m)
+			k := ks[r.Intn(len(ks))]
+			var free []string
+			for _, c := range c07Keys {
+				if _, in := m[c]; !in {
+					free = append(free, c)
+				}
+			}
+			if len(free) == 0 {
+				break
+			}
+			nk := free[r.Intn(len(free))]
+			v := m[k]
+			delete(m, k)
+			m[nk] = v
+			log = append(log, fmt.Sprintf("%s: %q -> %q", n.loc, k, nk))
+		}
+		if len(m) != size {
+			panic("c07RenameInPlace changed a size")
+		}
+	}
+	return log
+}
+
 var c07JunkPaths = []string{"$.*", "$..*", "$[?(@)]", "$..[?(@ != 1)]", "$['j03','j01',*]", "$.*.*"}
 
 func c07JunkDoc(r *Rng) interface{} {
@@ -522,16 +770,36 @@ func (c07) Exec(seed int64, i int, tier string) Record {
 		a = append(a, g.obj(1, nkeys))
 		doc = a
 	}
+	// shared containers: the same map / slice object in two (or three) places
+	var shared []string
+	if r.Chance(22) {
+		for n := r.Weighted([]int{0, 75, 25}); n > 0; n-- {
+			if d := c07Share(doc, r); d != "" {
+				shared = append(shared, d)
+			}
+		}
+		g.descBias = len(shared) > 0
+	}
 	g.root = doc
 	p := g.path()
 	text := Render(p, r)
 	acc := r.Chance(20)
 	jn := r.Chance(20)
 	if jn {
-		doc = ToJnum(doc)
+		doc = c07Jnum(doc, map[[2]uintptr]interface{}{})
 	}
 	rec := Record{Text: text, Doc: JSONText(doc), Tags: stepTags(p)}
 	rec.Info = map[string]interface{}{"accessor": acc, "jnum": jn}
+	if len(shared) > 0 {
+		if c07SharedPlaces(doc) < 2 {
+			rec.Viol = "harness error: the document shares no container"
+			rec.Class = "harness"
+			return rec
+		}
+		rec.Info["shared_containers"] = shared
+		rec.Info["shared_note"] = "evaluation 0 runs on the document in which these places hold the SAME Go object (locations as of the moment each was shared); all other evaluations run on equal documents made of separate objects"
+		rec.Tags = append(rec.Tags, "doc:shared-container")
+	}
 
 	ncopies := r.Range(3, 5)
 	copies := make([]interface{}, ncopies)
@@ -593,6 +861,77 @@ func (c07) Exec(seed int64, i int, tier string) Record {
 		}
 	}
 
+	// keys renamed in place between two evaluations of the same parsed function
+	var renQ []LeanQ
+	if r.Chance(35) {
+		md := c07Rebuild(doc, r) // separate objects throughout
+		pre := SafeCall(f, md)
+		if c := c05Canon(pre); c != firstCanon {
+			rec.Viol = fmt.Sprintf("the parsed function on one more equal copy of the document returned another sequence: first=%s now=%s", clip(firstCanon, 500), clip(c, 500))
+			rec.Class = "order-varies"
+			return rec
+		}
+		renames := c07RenameInPlace(md, r)
+		if len(renames) > 0 {
+			rec.Info["renamed_in_place"] = renames
+			rec.Info["renamed_document"] = JSONText(md)
+			rec.Info["renamed_note"] = "the parsed function evaluated the document, then these keys were renamed in the same map objects (delete + insert of the same value; locations as before the renaming), then it evaluated the document again"
+			rec.Tags = append(rec.Tags, "phase:renamed-in-place")
+			same := SafeCall(f, md)
+			var fresh, rebuilt Outcome
+			if r.Chance(50) {
+				fresh = Run(text, md, &cfg)
+				rebuilt = SafeCall(f, c07Rebuild(md, r))
+			} else {
+				rebuilt = SafeCall(f, c07Rebuild(md, r))
+				fresh = Run(text, md, &cfg)
+			}
+			again := SafeCall(f, md)
+			for _, o := range []Outcome{same, fresh, rebuilt, again} {
+				if o.ErrKind == "panic" {
+					rec.Viol = "call panicked after keys were renamed in place: " + o.Panic
+					rec.Class = "abnormal"
+					return rec
+				}
+			}
+			cs, cf := c05Canon(same), c05Canon(fresh)
+			for _, x := range []struct {
+				how string
+				c   string
+			}{{"the same parsed function on the same map objects", cs}, {"the parsed function on a freshly built equal document", c05Canon(rebuilt)}, {"the same parsed function on the same map objects, once more", c05Canon(again)}} {
+				if x.c != cf {
+					rec.Viol = fmt.Sprintf("after keys were renamed in place (%s) %s returns %s but a fresh Retrieve returns %s on %s", clip(strings.Join(renames, "; "), 300), x.how, clip(x.c, 400), clip(cf, 400), clip(JSONText(md), 600))
+					rec.Class = "order-varies"
+					return rec
+				}
+			}
+			if ref, ok := c07Ref(p, md); ok {
+				want := "err"
+				if len(ref) > 0 {
+					want = "ok " + ValsSexp(ref)
+				}
+				got := "err"
+				if same.OK {
+					got = "ok " + c05ResText(same.Vals)
+				}
+				if got != want {
+					rec.Viol = "after keys were renamed in place (" + clip(strings.Join(renames, "; "), 300) + ") the order differs from the reference walk on the new key set: real=" + clip(got, 500) + " reference=" + clip(want, 500)
+					rec.Class = "order-wrong"
+					return rec
+				}
+			}
+			exp := "(q err)"
+			if same.OK {
+				exp = "(q ok"
+				for _, v := range same.Vals {
+					exp += " " + ResSexp(v)
+				}
+				exp += ")"
+			}
+			renQ = []LeanQ{{Driver: "spec", Line: "(q run " + p.Sexp() + " " + ValSexp(md) + ")", Expect: exp, What: "sequence after keys were renamed in place vs Spec.run on the canonical renamed document"}}
+		}
+	}
+
 	// the reference walk
 	if ref, ok := c07Ref(p, doc); ok {
 		want := "err"
@@ -620,6 +959,7 @@ func (c07) Exec(seed int64, i int, tier string) Record {
 	}
 	rec.Class = "order-wrong" // class of a disagreement with the specification's sequence
 	rec.Q = []LeanQ{{Driver: "spec", Line: "(q run " + p.Sexp() + " " + canonDoc + ")", Expect: exp, What: "sequence vs Spec.run on the canonical document"}}
+	rec.Q = append(rec.Q, renQ...)
 
 	// evidence
 	rootKeys := []string{}
